@@ -210,12 +210,17 @@ W3_MENU = [0, 2] if not THOROUGH else [0, 1, 2]
 OPT_MENU = [0, 1, 3] if not THOROUGH else [0, 1, 2, 3, 4]
 
 
+IDWORDS = (5, 6, 14, 15)                  # [#g] [@r] [#none] [@dup]
 DBWORDS = (5, 6, 7, 8, 13, 14, 15)      # words whose opening depends on the index content
 
 
 def _idx_ok(w1, w2, idx_i):
     # the second index content only matters when some word is resolved through the index
-    return THOROUGH or idx_i == 0 or w1 in DBWORDS or w2 in DBWORDS
+    if THOROUGH or idx_i == 0:
+        return True
+    if idx_i == 2:          # "an ID twice on one page" only differs for [#..] / [@..] words
+        return w1 in IDWORDS or w2 in IDWORDS
+    return w1 in DBWORDS or w2 in DBWORDS
 
 
 def _pins(pre_i, w1, zoq):
@@ -245,6 +250,7 @@ def action(pre_i: int, w1: int, p1: int, w2: int, w3: int, zoq: bool, opt: int, 
     pre: 0 <= pre_i < len(PREFIXES) and 0 <= w1 < len(WORDS) and p1 in P1_MENU and w2 in W2_MENU
     pre: w3 in W3_MENU and opt in OPT_MENU and 0 <= idx_i < len(INDEXES)
     pre: _pins(pre_i, w1, zoq) and _idx_ok(w1, w2, idx_i)
+    pre: THOROUGH or idx_i == 0 or (p1 == 0 and w3 == 0)
     post: _
     """
     line = build_line(pre_i, w1, p1, w2, w3)
